@@ -235,6 +235,9 @@ pub fn digest(files: &std::collections::HashMap<&'static str, String>) -> Value 
               json!({"name": fd["name"], "refs": refs, "dur": ty.contains("chrono::Duration"), "opt": ty.starts_with("Option<"),
                 "nested": fa.iter().any(|a| a.starts_with("validate(") && (a.contains("(nested") || a.contains(",nested"))),
                 "len": fa.iter().any(|a| a.starts_with("validate(") && a.contains("length(")),
+                // `#[serde_as(as = "Option<…>")]`: does the adapter wrap in Option (must agree with the member type)
+                "asOpt": fa.iter().any(|a| a.starts_with("serde_as(") && a.contains("as=\"Option<")),
+                "serdeAsAttr": fa.iter().any(|a| a.starts_with("serde_as(")),
                 "sep": sep, "sepStr": vec_elem(ty).is_some_and(|e| e == "String")})
             })
             .collect();
